@@ -663,6 +663,15 @@ class Lib:
             if len(items) != n:
                 raise RaiseSig(ExcVal('ValueError'))
             return items
+        if type(v).__name__ == 'ZipStar':
+            # zip(*rows): no rows -> nothing to unpack (ValueError); otherwise one item per column
+            seq = v.seq
+            if not self.I.branch(seq.length >= 1):
+                raise RaiseSig(ExcVal('ValueError'))
+            cols = v.columns()
+            if len(cols) != n:
+                raise RaiseSig(ExcVal('ValueError'))
+            return cols
         if isinstance(v, SymSeq):
             # unpacking a symbolic-length sequence: ValueError unless the length is n
             if not self.I.branch(v.length == n):
@@ -860,6 +869,9 @@ class Lib:
         return LazyIter('enumerate', [it], self)
 
     def bi_zip(self, ctx, args, kwargs):
+        from .models_py import StarArg, ZipStar
+        if len(args) == 1 and isinstance(args[0], StarArg):
+            return ZipStar(args[0].seq)
         lists = [self.concrete_iter(ctx, a) for a in args]
         if all(l is not None for l in lists):
             return [tuple(t) for t in zip(*lists)]
